@@ -144,6 +144,8 @@ def defl_cov(rule, expl):
              "flush_points_checked": int(st.get("flush_points_checked", 0)), "full_flush_points": int(st.get("full_flush_points", 0)), "flush_calls_without_input_after_a_completed_flush": int(st.get("flush_calls_without_input_after_a_completed_flush", 0)), "full_flush_suffixes_over_1k": int(st.get("full_flush_suffixes_1k", 0)),
              "state_transitions_observed": dict(sorted(agg.cnts.get("state_transitions", {}).items())),
              "tmp_state_resume_points": dict(sorted(agg.cnts.get("tmp_state_resume_points", {}).items()))}
+        if st.get("streams_of_4GiB_and_more"):
+            c["streams_of_2^32_plus_delta_bytes_compressed_and_decoded_on_the_fly"] = int(st["streams_of_4GiB_and_more"])
         if st.get("inflate_dict_calls_refused"):
             c["inflate_set_dict_calls_refused_while_block_open"] = int(st["inflate_dict_calls_refused"])
         for k in ("invalid_params", "dict_wrong_state", "oneshot", "inflate_dict_probe_states"):
@@ -182,6 +184,7 @@ def run_C10(ctx):
     if ctx.thorough:
         ctx.run("asm-asan", "eng_deflate.c", scale=0.1)
         ctx.run("c-asan", "eng_deflate.c", scale=0.4)
+        ctx.run("asm", "eng_big.c", timeout=14000)        # streams of 2^32 + delta bytes (32-bit counters wrap), decoded on the fly by zlib
 
 
 def run_C14(ctx):
